@@ -46,6 +46,7 @@ inductive ErrClass where
   | mapKey           -- "Map key mismatch"
   | structType       -- "Struct type mismatch"
   | structNum        -- "Struct field number mismatch"
+  | structVis        -- "Struct field visibility mismatch"
   | structAnon       -- "Struct anonymous field mismatch failed"
   | seqKind          -- "Slice/array kind mismatch"
   | seqCapLen        -- "Slice/array capacity or length mismatch"
@@ -212,8 +213,8 @@ def structLoop (fs : List Fld) (vs : List EV) (gs : List Fld) (ws : List EV) : E
   | [], _, _, _ => .ok none
   | f :: fs, v :: vs, g :: gs, w :: ws =>
       if !f.exported && !g.exported then structLoop fs vs gs ws                     -- private fields are not compared
+      else if f.exported != g.exported then .ok (some .structVis)                   -- an exported field never matches a private one
       else if f.name != g.name && !(f.anon && g.anon) then .ok (some .structAnon)
-      else if !f.exported || !g.exported then .error .panic                         -- Value.Interface() on an unexported field
       else
         match veq false false v (sideAny w) with
         | .ok none => structLoop fs vs gs ws
@@ -324,6 +325,21 @@ def stackHead (c : Cfg) (n : Nat) (c' : Cfg) (n' : Nat) : Option ErrClass :=
 /-- meaning of an installed EqualityPolicy: policy id, receiver, argument ↦ its result -/
 abbrev EqHook := Nat → Val → Val → Option ErrClass
 
+/-- `stackTypeAliasConverter(y)` or `conditionTypeAliasConverter(y)` succeeds (a zero-valued instance does not convert) -/
+def Val.converts (y : Val) : Bool := y.isStack || y.isCond
+
+/-- x, as an `any`, dereferences to a struct (`xrk == reflect.Struct` in `valuesEqual`) -/
+def isStructAny (xe : EV) : Bool :=
+  match (EV.sideAny xe).d with
+  | some (.struct ..) => true
+  | _ => false
+
+/-- `valuesEqual(x, y)` for an x that is not an initialised Stack / Condition: a struct never equals a stackage
+instance on its right (repair K-C05-2); everything else goes by what `reflect` sees of y -/
+def leafVeq (xe : EV) (y : Val) : EqRes :=
+  if isStructAny xe && y.converts then .ok (some .cannotConvert)
+  else EV.veq false false xe (EV.sideAny y.toEV)
+
 mutual
 /-- `valuesEqual(x, y)` for two stack slots / two condition expressions -/
 def Val.veq (hook : EqHook) : Val → Val → EqRes
@@ -348,12 +364,12 @@ def Val.veq (hook : EqHook) : Val → Val → EqRes
                 | some e => .ok (some e)
                 | none => Val.veq hook ex ex'
       | _ => .ok (some .cannotConvert)
-  | .nil, y => EV.veq false false .inil (EV.sideAny y.toEV)
-  | .leaf l, y => EV.veq false false l.toEV (EV.sideAny y.toEV)
-  | .zstk f, y => EV.veq false false (handleStruct false f) (EV.sideAny y.toEV)
-  | .zcnd f, y => EV.veq false false (handleStruct true f) (EV.sideAny y.toEV)
-  | .anys xs, y => EV.veq false false (Val.toEV (.anys xs)) (EV.sideAny y.toEV)
-  | .opv o, y => EV.veq false false (opEV o) (EV.sideAny y.toEV)
+  | .nil, y => leafVeq .inil y
+  | .leaf l, y => leafVeq l.toEV y
+  | .zstk f, y => leafVeq (handleStruct false f) y
+  | .zcnd f, y => leafVeq (handleStruct true f) y
+  | .anys xs, y => leafVeq (Val.toEV (.anys xs)) y
+  | .opv o, y => leafVeq (opEV o) y
 
 /-- the loop of `stack.isEqual`: `valuesEqual(r.index(i), o.index(i))` for `i < r.ulen()` -/
 def stkLoop (hook : EqHook) : List Val → List Val → EqRes
